@@ -416,6 +416,28 @@ func TestC03(t *testing.T) {
 		c03Flush(rt, &q, 1)
 	})
 
+	// (b3) patterns over parameters that exist only at run time: nothing is declared (or exactly one unrelated parameter),
+	// the build runs with --ignore-missing-params, the values arrive through OverrideParam
+	if ev.Mine(1) {
+		behCompileErrIsViolation = true
+		var c behCase
+		for v := 0; v < 2; v++ {
+			conf := cfg.Config{Meta: cfg.Meta{Pkg: sp("app")}, Services: []cfg.Service{
+				{Name: "s", Ctor: sp("fx/lib.NewObj"), Args: []cfg.Val{cfg.Str("%late%"), cfg.Str("x%late%y"), cfg.Str("%%%late%%%"), cfg.Str("%late%%other%")},
+					Fields: []cfg.Field{{Name: "FieldA", Val: cfg.Str("%other%")}}, Calls: []cfg.Call{{Method: "Call1", Args: []cfg.Val{cfg.Str("<%late%>")}}}, Tags: []cfg.Tag{{Name: "t"}}},
+			}, Decorators: []cfg.Decorator{{Tag: "t", Fn: "fx/lib.Decorate", Args: []cfg.Val{cfg.Str("%late%!")}}}}
+			if v == 1 {
+				conf.Params = []cfg.Param{{Name: "unrelated", Val: cfg.Int(1)}}
+			}
+			ops := []fx.Op{{Op: "get", ID: "s"}, {Op: "param", ID: "late"},
+				{Op: "overrideParam", ID: "late", Val: &fx.Lit{K: "str", S: "v"}}, {Op: "overrideParam", ID: "other", Val: &fx.Lit{K: "int", I: 7}},
+				{Op: "param", ID: "late"}, {Op: "get", ID: "s"}, {Op: "tagged", ID: "t"}}
+			c.Members = append(c.Members, behMember{Files: []cfg.Config{conf}, Script: fx.Script{Ops: ops}, IgnoreP: true, Labels: []string{"hand-built:parameters-supplied-at-run-time", fmt.Sprintf("declared-params:%d", len(conf.Params))}})
+		}
+		behBatch(t, c, func(behMember, cfg.Config) bool { return true }, c02Check, nil)
+		behCompileErrIsViolation = false
+	}
+
 	// (c) chunk sequences: parameters mixing text, %%, references to every literal type and function calls
 	batch := pick(16, 24)
 	setRapidChecks(pick(4, 40))
